@@ -93,7 +93,12 @@ func MakeConfig(seed uint64, profile, tier string) SwarmConfig {
 		}
 	}
 	switch profile {
-	case "C01", "C03", "C04", "C05":
+	case "C01":
+		emph("trader", "lp", "donor", "perp", "levlp", "liquidator", "lender")
+		if r.IntN(2) == 0 {
+			c.PriceJump = 0.05
+		}
+	case "C03", "C04", "C05":
 		emph("trader", "lp", "donor", "arb")
 	case "C02":
 		emph("lp", "levlp", "liquidator")
@@ -106,6 +111,9 @@ func MakeConfig(seed uint64, profile, tier string) SwarmConfig {
 		}
 	case "C09", "C11":
 		emph("perp", "liquidator", "trader", "lp")
+		if r.IntN(2) == 0 {
+			c.PriceJump = 0.05
+		}
 	case "C10":
 		emph("perp", "levlp", "liquidator", "lender")
 		c.PriceVol = pick(r, []float64{0.02, 0.06})
